@@ -344,8 +344,12 @@ def judge_schedule(case, rec, log, results, ref, cache):
     rec.check("no_load_of_partial_library", not hazards,
               {"order": order, "log": log, "hazards": hazards}, key="C18/load-of-partially-written-library")
     gates = {g for _, g, _ in log}
-    rec.check("gates_matched", {"lookup", "load"} <= gates and "cc_write1" in gates,
-              {"gates": sorted(gates), "log": log})
+    # whether the harness found the statements it gates on is an observation about the harness, not about the property:
+    # a tree whose lookup or load statement is worded differently cannot be scheduled, which is inconclusive
+    if {"lookup", "load"} <= gates and "cc_write1" in gates:
+        rec.seen("gates_matched")
+    else:
+        rec.inconclusive("schedule gates not found in the code under test (found: %s)" % sorted(gates))
     bad = {t: {k: r.get(k) for k in ("exit", "error", "stderr", "timeout")} for t, r in results.items()
            if not r.get("ok")}
     rec.check("all_processes_succeed", not bad, {"order": order, "log": log, "failed": bad},
